@@ -612,7 +612,32 @@ func resolveCell(v ssa.Value) ssa.Value {
 	for i := 0; i < 8; i++ {
 		v = unwrap(v)
 		switch x := v.(type) {
+		case *ssa.Field:
+			// a field of a carrier used by value (`errSignal{opm, ch}.done`): what was put there
+			if par, ok := x.X.(*ssa.Parameter); ok && curWorld != nil && par.Parent() != nil && par.Parent().Signature.Recv() != nil && par.Parent().Params[0] == par {
+				if st, isSt := par.Type().Underlying().(*types.Struct); isSt {
+					if sv, isCarrier := curWorld.carrierField(st.Field(x.Field)); isCarrier {
+						v = sv
+						continue
+					}
+				}
+			}
+			return v
 		case *ssa.UnOp:
+			if fa, isFA := x.X.(*ssa.FieldAddr); isFA && curWorld != nil {
+				base := fa.X
+				if al, isAl := base.(*ssa.Alloc); isAl { // the cell a value receiver was spilled to
+					if sv, one := singleStore(al); one {
+						base = sv
+					}
+				}
+				if par, ok := base.(*ssa.Parameter); ok && par.Parent() != nil && par.Parent().Signature.Recv() != nil && par.Parent().Params[0] == par {
+					if sv, isCarrier := curWorld.carrierField(fieldOfAddr(fa)); isCarrier {
+						v = sv
+						continue
+					}
+				}
+			}
 			switch a := x.X.(type) {
 			case *ssa.Alloc:
 				if s, ok := singleStore(a); ok {
